@@ -66,6 +66,7 @@ type scenario struct {
 
 var propScenario = map[string][]scenario{
 	"C18": {{"c18_maxsize_test.go", "."}},
+	"C19": {{"c19_check_corrupt_test.go", "."}},
 }
 
 var propReplay = map[string]replayTemplate{}
@@ -120,6 +121,33 @@ func runOverlayTest(src, pkgDir string) (string, bool) {
 	return out, strings.Contains(out, "--- FAIL") || strings.Contains(out, "panic:") || strings.Contains(out, "FAIL")
 }
 
-func runBounded(e *Engine, prop, tier string, seed int) []map[string]interface{} {
-	return nil
+// runBounded runs the property's scenario templates as bounded stand-ins on the real code. They are
+// labelled bounded, never counted as discharged. Returns records and the scenarios that failed.
+func runBounded(e *Engine, prop, tier string, seed int, force bool) ([]map[string]interface{}, []map[string]interface{}) {
+	if tier != "thorough" && !force {
+		return nil, nil
+	}
+	var recs, failed []map[string]interface{}
+	for _, sc := range propScenario[prop] {
+		data, err := os.ReadFile(filepath.Join("/verif/replay_templates", sc.file))
+		if err != nil {
+			continue
+		}
+		t0 := time.Now()
+		out, bad := runOverlayTest(string(data), sc.pkgDir)
+		rec := map[string]interface{}{
+			"contract": "scenario " + sc.file,
+			"bound":    "small-scope enumeration described in the template (bounded stand-in, not a proof)",
+			"failed":   bad,
+			"wall_s":   time.Since(t0).Seconds(),
+		}
+		if bad {
+			rec["output"] = firstLines(out, 60)
+			rec["source"] = string(data)
+			rec["pkg"] = sc.pkgDir
+			failed = append(failed, rec)
+		}
+		recs = append(recs, rec)
+	}
+	return recs, failed
 }
